@@ -1,10 +1,269 @@
-//! C07 — see props/sweep.rs (shared compile-pipeline sweep) for the corpus and the judge.
+//! C07 — see props/sweep.rs (shared compile-pipeline sweep) for the corpus and the judge of the program-level
+//! part. This file adds the *deeply nested data* leg: values nested N levels deep are built iteratively through
+//! the data trait and one instruction (or clone_data / optimize) is executed on them, each case in a child
+//! process on a thread with the default 2 MiB stack of a spawned Rust thread — a stack overflow aborts the
+//! process and cannot be caught by catch_unwind, so the parent reads the child's exit status instead.
 
+use crate::pipe::{exec_one_at, Fail};
 use crate::props::sweep::{run as sweep, Which};
 use crate::run::{Acc, Ctx};
+use crate::store::{Basic, Simple, Store};
+use crate::util::{panic_site, Json};
+use crate::value::Mk;
+use garnish_lang_traits::{GarnishData, GarnishDataType as T, Instruction as I};
 
-pub fn run(ctx: &Ctx) -> (Acc, String, bool) {
-    sweep(ctx, Which::C07)
+pub const SHAPES: [&str; 7] = ["pair-right", "pair-left", "list-in-list", "concat-right", "concat-left", "list-of-pairs-chain", "slice-of-slice"];
+pub const OPS: [&str; 18] = [
+    "cast-text", "cast-bytes", "cast-symbol", "cast-list", "equal-self", "equal-copy", "not-equal-copy", "less-than-copy", "concat-self", "pair-self", "length", "left", "right", "type-of", "access-0", "apply-0",
+    "clone-data", "optimize",
+];
+
+/// build a value nested `depth` levels deep, iteratively (no recursion in the harness)
+fn build_deep<D: Store + Mk>(d: &mut D, shape: &str, depth: usize) -> Result<usize, String> {
+    let e = |x: garnish_lang_simple_data::DataError| x.to_string();
+    let one = d.add_number(1.into()).map_err(e)?;
+    let two = d.add_number(2.into()).map_err(e)?;
+    let mut cur = one;
+    for i in 0..depth {
+        cur = match shape {
+            "pair-right" => d.add_pair((one, cur)).map_err(e)?,
+            "pair-left" => d.add_pair((cur, two)).map_err(e)?,
+            "list-in-list" => {
+                let l = d.start_list(1).map_err(e)?;
+                let l = d.add_to_list(l, cur).map_err(e)?;
+                d.end_list(l).map_err(e)?
+            }
+            "concat-right" => d.add_concatenation(one, cur).map_err(e)?,
+            "concat-left" => d.add_concatenation(cur, two).map_err(e)?,
+            "list-of-pairs-chain" => {
+                let sym = d.add_symbol(crate::pool::sym_u("alpha")).map_err(e)?;
+                let p = d.add_pair((sym, cur)).map_err(e)?;
+                let l = d.start_list(2).map_err(e)?;
+                let l = d.add_to_list(l, two).map_err(e)?;
+                let l = d.add_to_list(l, p).map_err(e)?;
+                d.end_list(l).map_err(e)?
+            }
+            "slice-of-slice" => {
+                if i == 0 {
+                    let l = d.start_list(3).map_err(e)?;
+                    let l = d.add_to_list(l, one).map_err(e)?;
+                    let l = d.add_to_list(l, two).map_err(e)?;
+                    let l = d.add_to_list(l, one).map_err(e)?;
+                    d.end_list(l).map_err(e)?
+                } else {
+                    let zero = d.add_number(0.into()).map_err(e)?;
+                    let r = d.add_range(zero, two).map_err(e)?;
+                    d.add_slice(cur, r).map_err(e)?
+                }
+            }
+            _ => return Err(format!("unknown shape {}", shape)),
+        };
+    }
+    Ok(cur)
 }
 
-pub const ASSUMPTIONS: &[&str] = &["a step budget bounds every execution (2000 quick / 10000 thorough); Err results are acceptable, only unwinding or aborting is a violation", "run under both the overflow-checking (mon) and the release profile"];
+/// the body of one case; returns "ok" / "err: .." / "panic: <site> | <message>"
+fn deep_case<D: Store + Mk + DeepExtra>(shape: &str, depth: usize, op: &str) -> String {
+    let mut d = D::fresh();
+    let v = match build_deep(&mut d, shape, depth) {
+        Ok(a) => a,
+        Err(e) => return format!("setup-err: {}", e),
+    };
+    let copy = match op {
+        "equal-copy" | "not-equal-copy" | "less-than-copy" => match build_deep(&mut d, shape, depth) {
+            Ok(a) => a,
+            Err(e) => return format!("setup-err: {}", e),
+        },
+        _ => v,
+    };
+    if op == "clone-data" || op == "optimize" {
+        return match crate::util::guarded(|| D::extra(&mut d, op, v)) {
+            Ok(Ok(())) => "ok".into(),
+            Ok(Err(e)) => format!("err: {}", e),
+            Err((m, l)) => format!("panic: {} | {}", panic_site(&l), m),
+        };
+    }
+    let mut m: crate::mon::Mon<D> = crate::mon::Mon::new(d);
+    m.shadow_on = false;
+    let ty = |m: &mut crate::mon::Mon<D>, t: T| m.add_type(t).map_err(|e| e.to_string());
+    let num0 = m.add_number(0.into()).map_err(|e| e.to_string());
+    let (ins, operands): (I, Vec<usize>) = match op {
+        "cast-text" => (I::ApplyType, vec![v, ty(&mut m, T::CharList).unwrap_or(0)]),
+        "cast-bytes" => (I::ApplyType, vec![v, ty(&mut m, T::ByteList).unwrap_or(0)]),
+        "cast-symbol" => (I::ApplyType, vec![v, ty(&mut m, T::Symbol).unwrap_or(0)]),
+        "cast-list" => (I::ApplyType, vec![v, ty(&mut m, T::List).unwrap_or(0)]),
+        "equal-self" => (I::Equal, vec![v, v]),
+        "equal-copy" => (I::Equal, vec![v, copy]),
+        "not-equal-copy" => (I::NotEqual, vec![v, copy]),
+        "less-than-copy" => (I::LessThan, vec![v, copy]),
+        "concat-self" => (I::Concat, vec![v, v]),
+        "pair-self" => (I::MakePair, vec![v, v]),
+        "length" => (I::AccessLengthInternal, vec![v]),
+        "left" => (I::AccessLeftInternal, vec![v]),
+        "right" => (I::AccessRightInternal, vec![v]),
+        "type-of" => (I::TypeOf, vec![v]),
+        "access-0" => (I::Access, vec![v, num0.clone().unwrap_or(0)]),
+        "apply-0" => (I::Apply, vec![v, num0.unwrap_or(0)]),
+        _ => return format!("setup-err: unknown op {}", op),
+    };
+    crate::props::prep_expr0(&mut m);
+    match exec_one_at(&mut m, ins, None, &operands) {
+        Err(e) => format!("setup-err: {}", e),
+        Ok(one) => match one.outcome {
+            Ok(_) => "ok".into(),
+            Err(Fail::Err(_, e)) => format!("err: {}", e.chars().take(120).collect::<String>()),
+            Err(Fail::Panic(_, msg, loc)) => format!("panic: {} | {}", panic_site(&loc), msg.chars().filter(|c| !c.is_ascii_digit()).take(90).collect::<String>()),
+        },
+    }
+}
+
+/// store-specific whole-value operations (BasicGarnishData: clone_data, optimize)
+pub trait DeepExtra: Sized {
+    fn extra(d: &mut Self, op: &str, v: usize) -> Result<(), String>;
+}
+impl DeepExtra for Simple {
+    fn extra(_d: &mut Self, _op: &str, _v: usize) -> Result<(), String> {
+        Ok(())
+    }
+}
+impl DeepExtra for Basic {
+    fn extra(d: &mut Self, op: &str, v: usize) -> Result<(), String> {
+        match op {
+            "clone-data" => d.clone_data(v).map(|_| ()).map_err(|e| e.to_string()),
+            _ => {
+                d.push_register(v).map_err(|e| e.to_string())?;
+                d.optimize(&[v]).map(|_| ()).map_err(|e| e.to_string())
+            }
+        }
+    }
+}
+
+/// entry point of the child process: `gmon deep <store> <shape> <depth> <op>`; prints one line
+pub fn deep_child(args: &[String]) {
+    let (store, shape, depth, op) = (args[0].clone(), args[1].clone(), args[2].parse::<usize>().unwrap_or(1), args[3].clone());
+    // the stack a spawned thread gets by default (what a host running scripts on worker threads, or `cargo test`, has)
+    let h = std::thread::Builder::new().stack_size(2 << 20).spawn(move || if store == "simple" { deep_case::<Simple>(&shape, depth, &op) } else { deep_case::<Basic>(&shape, depth, &op) }).expect("spawn");
+    match h.join() {
+        Ok(line) => println!("DEEP {}", line),
+        Err(_) => println!("DEEP panic: harness | thread panicked"),
+    }
+}
+
+pub fn run(ctx: &Ctx) -> (Acc, String, bool) {
+    let (mut acc, rule, ex) = sweep(ctx, Which::C07);
+    // ---- deeply nested data, one child process per case; on the overflow-checking build only (its frames are the larger ones)
+    if !cfg!(debug_assertions) {
+        return (acc, rule, ex);
+    }
+    let depths: Vec<usize> = if ctx.quick() { vec![64, 999, 1001, 4000] } else { vec![64, 999, 1001, 4000, 20_000, 100_000] };
+    let child_limit = std::time::Duration::from_secs(ctx.pick(8, 120));
+    let exe = std::env::current_exe().expect("current_exe");
+    let mut cases: Vec<(String, String, usize, String)> = vec![];
+    for store in ["simple", "basic"] {
+        for shape in SHAPES {
+            for depth in &depths {
+                for op in OPS {
+                    if store == "simple" && (op == "clone-data" || op == "optimize") {
+                        continue;
+                    }
+                    cases.push((store.to_string(), shape.to_string(), *depth, op.to_string()));
+                }
+            }
+        }
+    }
+    let results: Vec<(usize, String)> = {
+        let next = std::sync::atomic::AtomicUsize::new(0);
+        let out = std::sync::Mutex::new(vec![]);
+        std::thread::scope(|s| {
+            for _ in 0..ctx.threads.max(1) {
+                s.spawn(|| loop {
+                    let i = next.fetch_add(1, std::sync::atomic::Ordering::SeqCst);
+                    if i >= cases.len() {
+                        break;
+                    }
+                    let (store, shape, depth, op) = &cases[i];
+                    // a wall-clock limit per child keeps the leg bounded (some conversions of BasicGarnishData are cubic in
+                    // the nesting depth); a child stopped by it is counted as slow, never judged
+                    let r = std::process::Command::new(&exe)
+                        .args(["deep", store, shape, &depth.to_string(), op])
+                        .stdout(std::process::Stdio::piped())
+                        .stderr(std::process::Stdio::piped())
+                        .spawn()
+                        .and_then(|mut ch| {
+                            let t0 = std::time::Instant::now();
+                            loop {
+                                if ch.try_wait()?.is_some() {
+                                    return ch.wait_with_output().map(Some);
+                                }
+                                if t0.elapsed() > child_limit {
+                                    let _ = ch.kill();
+                                    let _ = ch.wait();
+                                    return Ok(None);
+                                }
+                                std::thread::sleep(std::time::Duration::from_millis(5));
+                            }
+                        });
+                    let line = match r {
+                        Err(e) => format!("inconclusive: could not start child: {}", e),
+                        Ok(None) => "slow: stopped by the per-case wall-clock limit".to_string(),
+                        Ok(Some(o)) => {
+                            let so = String::from_utf8_lossy(&o.stdout);
+                            let se = String::from_utf8_lossy(&o.stderr);
+                            match so.lines().find(|l| l.starts_with("DEEP ")) {
+                                Some(l) => l[5..].to_string(),
+                                None => {
+                                    use std::os::unix::process::ExitStatusExt;
+                                    let what = if se.contains("overflowed its stack") {
+                                        "stack overflow".to_string()
+                                    } else if se.contains("memory allocation") {
+                                        "allocation failure".to_string()
+                                    } else {
+                                        format!("signal {:?} code {:?}", o.status.signal(), o.status.code())
+                                    };
+                                    format!("abort: {}", what)
+                                }
+                            }
+                        }
+                    };
+                    out.lock().unwrap().push((i, line));
+                });
+            }
+        });
+        out.into_inner().unwrap()
+    };
+    for (i, line) in results {
+        let (store, shape, depth, op) = &cases[i];
+        acc.evals += 1;
+        acc.count("deep_data_cases");
+        let what = line.split(':').next().unwrap_or("").to_string();
+        acc.count(&format!("deep_{}", what.replace('-', "_")));
+        acc.max("deep_data_max_depth", *depth as u64);
+        let payload = Json::obj().with("store", Json::s(store)).with("shape", Json::s(shape)).with("depth", Json::i(*depth as i64)).with("op", Json::s(op));
+        if line.starts_with("panic") || line.starts_with("abort") {
+            // one signature per (kind, store, shape, operation): the smallest failing depth is in the description
+            let kind = if line.starts_with("abort") { line.clone() } else { format!("panic: {}", line[7..].split('|').next().unwrap_or("").trim()) };
+            acc.violation(
+                format!("deep|{}|{}|{}|{}", kind, store, shape, op),
+                format!("[{}] {} on a {} nested {} levels deep: {}", store, op, shape, depth, line),
+                payload,
+            );
+        } else if line.starts_with("inconclusive") || line.starts_with("setup-err") {
+            acc.count("deep_setup_problems");
+        }
+    }
+    let rule = format!(
+        "{} Deep data: {} shapes ({}) nested {:?} levels deep, built iteratively through the data trait, x {} operations (casts to text / bytes / symbol / list, equality and ordering against itself and a separately built copy, concatenation, pairing, internals, type-of, access, apply; clone_data and optimize on BasicGarnishData) x both stores, each in a child process on a 2 MiB thread stack (overflow-checking build; a child running longer than its wall-clock limit is counted as slow and not judged): a panic or an abort (stack overflow) is a violation, Err is not.",
+        rule,
+        SHAPES.len(),
+        SHAPES.join(", "),
+        depths,
+        OPS.len()
+    );
+    (acc, rule, ex)
+}
+
+pub const ASSUMPTIONS: &[&str] = &[
+    "a step budget bounds every execution (2000 quick / 10000 thorough); Err results are acceptable, only unwinding or aborting is a violation",
+    "run under both the overflow-checking (mon) and the release profile",
+    "deep-data cases run on a 2 MiB stack (the default of a spawned Rust thread); a stack overflow there is an abort of the host",
+];
